@@ -35,12 +35,29 @@ fn is_delim(c: char) -> bool {
 }
 
 pub fn lex(text: &str) -> Result<Vec<Tok>, LexError> {
+    Ok(lex_spans(text)?.into_iter().map(|(t, _, _)| t).collect())
+}
+
+/// Tokens with their byte spans `[start, end)` in the text.
+pub fn lex_spans(text: &str) -> Result<Vec<(Tok, usize, usize)>, LexError> {
     let chars: Vec<(usize, char)> = text.char_indices().collect();
+    let byte_at = |i: usize| chars.get(i).map(|c| c.0).unwrap_or(text.len());
     let mut i = 0;
-    let mut out = vec![];
+    let mut out: Vec<(Tok, usize, usize)> = vec![];
+    let mut toks: Vec<Tok> = vec![];
+    let mut starts: Vec<usize> = vec![];
     let err = |at: usize, what: &str| LexError { at, what: what.to_string() };
     while i < chars.len() {
+        // close the span of the token pushed by the previous iteration
+        while out.len() < toks.len() {
+            let k = out.len();
+            out.push((toks[k].clone(), starts[k], byte_at(i)));
+        }
         let (pos, c) = chars[i];
+        if !c.is_whitespace() && c != ';' {
+            starts.push(pos);
+            starts.truncate(toks.len() + 1);
+        }
         if c.is_whitespace() {
             i += 1;
         } else if c == ';' {
@@ -48,13 +65,13 @@ pub fn lex(text: &str) -> Result<Vec<Tok>, LexError> {
                 i += 1;
             }
         } else if c == '(' {
-            out.push(Tok::Open);
+            toks.push(Tok::Open);
             i += 1;
         } else if c == ')' {
-            out.push(Tok::Close);
+            toks.push(Tok::Close);
             i += 1;
         } else if c == '\'' {
-            out.push(Tok::Quote);
+            toks.push(Tok::Quote);
             i += 1;
         } else if c == '"' {
             i += 1;
@@ -111,7 +128,7 @@ pub fn lex(text: &str) -> Result<Vec<Tok>, LexError> {
                     other => s.push(other),
                 }
             }
-            out.push(Tok::Str(s));
+            toks.push(Tok::Str(s));
         } else if c == '#' {
             let next = chars.get(i + 1).map(|x| x.1);
             match next {
@@ -149,7 +166,7 @@ pub fn lex(text: &str) -> Result<Vec<Tok>, LexError> {
                             _ => return Err(err(pos, &format!("unknown character name #\\{name}"))),
                         }
                     };
-                    out.push(Tok::Char(ch));
+                    toks.push(Tok::Char(ch));
                     i = j;
                 }
                 Some('t') | Some('f') => {
@@ -159,8 +176,8 @@ pub fn lex(text: &str) -> Result<Vec<Tok>, LexError> {
                     }
                     let name: String = chars[i + 1..j].iter().map(|x| x.1).collect();
                     match name.as_str() {
-                        "t" | "true" => out.push(Tok::Bool(true)),
-                        "f" | "false" => out.push(Tok::Bool(false)),
+                        "t" | "true" => toks.push(Tok::Bool(true)),
+                        "f" | "false" => toks.push(Tok::Bool(false)),
                         _ => return Err(err(pos, &format!("unknown # syntax #{name}"))),
                     }
                     i = j;
@@ -178,7 +195,7 @@ pub fn lex(text: &str) -> Result<Vec<Tok>, LexError> {
                         _ => 10,
                     };
                     match i128::from_str_radix(&digits, radix) {
-                        Ok(v) => out.push(Tok::Int(v)),
+                        Ok(v) => toks.push(Tok::Int(v)),
                         Err(_) => return Err(err(pos, &format!("bad number #{r}{digits}"))),
                     }
                     i = j;
@@ -197,14 +214,18 @@ pub fn lex(text: &str) -> Result<Vec<Tok>, LexError> {
             };
             if numeric {
                 match word.parse::<i128>() {
-                    Ok(v) => out.push(Tok::Int(v)),
+                    Ok(v) => toks.push(Tok::Int(v)),
                     Err(_) => return Err(err(pos, "integer too large")),
                 }
             } else {
-                out.push(Tok::Sym(word));
+                toks.push(Tok::Sym(word));
             }
             i = j;
         }
+    }
+    while out.len() < toks.len() {
+        let k = out.len();
+        out.push((toks[k].clone(), starts[k], text.len()));
     }
     Ok(out)
 }
